@@ -8,6 +8,7 @@ import math
 import os
 import pickle
 import tempfile
+import warnings
 from datetime import datetime
 from fractions import Fraction
 
@@ -239,7 +240,15 @@ def _gen_ev(rng, k, station="S"):
     if two:
         batt.update({"noise": rng.choice([0, 0, 0.5]), "ts": rng.choice([0.8, 0.5, 0.9]),
                      "calc": rng.choice(["continuous", "stepwise"])})
-    return {"session": f"s{k}", "station": station, "arrival": 0, "departure": 10, "requested": round(rng.uniform(1, 30), 3), "batt": batt}
+    ev = {"session": f"s{k}", "station": station, "arrival": 0, "departure": 10, "requested": round(rng.uniform(1, 30), 3), "batt": batt}
+    if rng.random() < 0.5:
+        # sessions that overlap or abut in every way (plug-in into an occupied station is refused WHATEVER the time stamps say):
+        # arrivals before / at / after the previous session's (estimated) departure, estimates earlier and later than the departure
+        a = rng.choice([0, 0, 1, 3, 5, 9, 10, 12])
+        d = a + rng.choice([1, 2, 5, 10])
+        ev["arrival"], ev["departure"] = a, d
+        ev["est"] = rng.choice([None, d, a + 1, max(a + 1, d - 2), d + 3])
+    return ev
 
 
 def _gen_net(rng, kind):
@@ -350,6 +359,8 @@ def _gen_ops(rng, kinds, primary, exact=False, lo=1, hi=8):
             else:
                 op = {"op": "plugin", "ev": _gen_ev(rng, k, at)}
                 k += 1
+            if rng.random() < 0.5:
+                op["via"] = "net"          # through ChargingNetwork.plugin(ev) (what the Simulator calls), not EVSE.plugin
         else:
             op = {"op": "unplug"}
         if at != primary:
@@ -812,10 +823,14 @@ def run_impl(case):
                 if op == "set_pilot":
                     evse.set_pilot(I.num(o["p"]), o["V"], o["T"])
                 elif op == "plugin":
-                    if o.get("same") == "object" and evse.ev is not None:
-                        evse.plugin(evse.ev)
+                    newcomer = evse.ev if (o.get("same") == "object" and evse.ev is not None) else I.make_ev(o["ev"])
+                    if o.get("via") == "net":
+                        newcomer._station_id = at
+                        with warnings.catch_warnings():
+                            warnings.simplefilter("ignore")
+                            net.plugin(newcomer)
                     else:
-                        evse.plugin(I.make_ev(o["ev"]))
+                        evse.plugin(newcomer)
                 elif op == "unplug":
                     evse.unplug()
             except Exception as e:  # noqa
